@@ -1193,7 +1193,8 @@ func genC17base(prop, tier string, r *rand.Rand) *Scn {
 			g.sc.Root = g.tree(1+r.IntN(4), 1+r.IntN(2), 0.25)
 		default:
 			conc := r.IntN(4)
-			n := g.rootBatch(batchSize(r, 8), 1+r.IntN(3), 0, conc, false, []string{"results", "anys", "ints", "strings", "single"})
+			// payloads are handed on unchanged in either error mode (for every item that is processed)
+			n := g.rootBatch(batchSize(r, 8), 1+r.IntN(3), 0, conc, r.IntN(3) == 0, []string{"results", "anys", "ints", "strings", "single"})
 			g.timing(n)
 		}
 		return g.sc
